@@ -36,6 +36,9 @@ type cut struct {
 	After  int  // close the connection after exactly this many received bytes (<0: never)
 	RST    bool // reset instead of FIN
 	Refuse int  // then refuse this many connects before listening again
+	// Stall > 0: instead of closing, the collector stops reading for this long after After bytes
+	// (longer than the client's write timeout) and then goes on reading: a slow peer, not a dead one
+	Stall time.Duration
 }
 
 type connRec struct {
@@ -65,6 +68,7 @@ type collector struct {
 	wg           sync.WaitGroup
 	closed       bool
 	cutsDone     int32
+	stallsDone   int32
 }
 
 func newCollector(schedule []cut) (*collector, error) {
@@ -110,6 +114,13 @@ func (c *collector) serve(conn net.Conn, rec *connRec, ct cut) {
 	buf := make([]byte, 64*1024)
 	got := 0
 	for {
+		if ct.Stall > 0 && ct.After >= 0 && got >= ct.After {
+			if atomic.LoadInt32(&c.faultsOff) == 0 {
+				time.Sleep(ct.Stall)
+				atomic.AddInt32(&c.stallsDone, 1)
+			}
+			ct.After = -1
+		}
 		if ct.After >= 0 && got >= ct.After && atomic.LoadInt32(&c.faultsOff) == 0 {
 			// execute the fault: first stop listening (so that reconnects are refused), then cut
 			rec.mu.Lock()
@@ -452,6 +463,8 @@ type scenario struct {
 	queueIdleMs int  // queue mode with the drain: the queue stays empty for this long between phases of sends (longer than the drain's own queue wait)
 	smallRcv    bool // the collector reads through a small socket receive buffer (writes of big frames block and are cut part-way)
 	hugeFrames  bool // frames of 3..7 MiB among the others
+	// writeTimeoutMs > 0: the client's write timeout (OneWayTcpClient.Timeout) for the scenario
+	writeTimeoutMs int
 	spaced      bool // single sender, one cut: after the cut each send waits until the client's socket is seen dead (see clientSocketAlive)
 	idleMs      int  // direct mode: client Timeout set to idleMs, connection left idle for longer between two phases
 }
@@ -629,6 +642,9 @@ func runScenario(c *vlib.Ctx, sc scenario, r *vlib.Rand, label string) {
 	var swg sync.WaitGroup
 	sentSinceCut := false // spaced scenarios have one sender: plain variable
 	phases := [][2]int{{0, sc.perSender}}
+	if sc.writeTimeoutMs > 0 {
+		cl.Timeout = time.Duration(sc.writeTimeoutMs) * time.Millisecond
+	}
 	if sc.idleMs > 0 {
 		cl.Timeout = time.Duration(sc.idleMs) * time.Millisecond
 		phases = [][2]int{{0, sc.perSender / 2}, {sc.perSender / 2, sc.perSender}}
@@ -1063,6 +1079,7 @@ func runScenario(c *vlib.Ctx, sc scenario, r *vlib.Rand, label string) {
 	c.Count("frames_received", int64(len(arrivals)))
 	c.Count("connections", int64(len(snaps)))
 	c.Count("cuts_executed", int64(atomic.LoadInt32(&col.cutsDone)))
+	c.Count("stalls_executed/"+sc.kind, int64(atomic.LoadInt32(&col.stallsDone)))
 	c.Count("truncated_tails_on_cut_connections", int64(truncTails))
 	c.Count("acked_but_lost_on_cut_connection", int64(lostAckedOnCut))
 	c.Max("max_open_sends", int64(maxOpen))
@@ -1517,6 +1534,15 @@ func main() {
 	c.Cases("fault-huge", scale(8, 120), func(i int, r *vlib.Rand) {
 		sch := []cut{{After: r.Range(0, 9<<20), RST: r.Intn(3) != 0, Refuse: 0}}
 		runScenario(c, scenario{kind: "fault-huge", senders: r.Range(1, 2), perSender: r.Range(3, 6), gomax: gomaxes[i%4], bigFrames: true, hugeFrames: true, smallRcv: true, schedule: sch}, r, fmt.Sprint("fault-huge#", i))
+	})
+	// a slow collector: it stops reading part-way through a frame that no buffer can absorb, for
+	// longer than the client's write timeout, and then reads on. The send fails (an error, nothing
+	// accepted); whatever the client does next, the bytes the collector reads must still parse
+	// into whole frames (a partial frame may only be the last thing a connection carried).
+	c.Cases("fault-stall", scale(6, 80), func(i int, r *vlib.Rand) {
+		sch := []cut{{After: r.Range(1<<20, 8<<20), Stall: time.Duration(r.Range(900, 1500)) * time.Millisecond}}
+		runScenario(c, scenario{kind: "fault-stall", senders: 1, perSender: r.Range(4, 8), gomax: gomaxes[i%4], bigFrames: true, hugeFrames: true, smallRcv: true,
+			writeTimeoutMs: r.Range(150, 350), schedule: sch}, r, fmt.Sprint("fault-stall#", i))
 	})
 	// queue mode with the drain, and idle periods longer than the drain's own queue wait (5 s)
 	c.Cases("queue-idle", scale(3, 24), func(i int, r *vlib.Rand) {
